@@ -253,4 +253,33 @@ func (s *syncer) SyncPrefix(prefix string) (ch <-chan map[string]string, err err
     ghost at send: gSentMap := ref(sent)
     invariant[1] m != nil && fresh(m) && unchanged$1 && (forall k string :: (k in m) <==> (exists j int :: 0 <= j && j < idx$1 && keys$1[j] == k)) && (forall j int :: 0 <= j && j < idx$1 ==> m[keys$1[j]] == str(data[keys$1[j]].Value))
   end
+
+// ---- C18: the cluster mutex of a member hangs off the member's lease session: recovering from a failed lease
+// keep-alive (a new lease is granted) must leave the session - and with it every lock the member holds - alone ----
+ghost var gSessionsClosed int
+func (c *cluster) closeSession()
+  trusted
+  modifies gSessionsClosed, c.session
+  ensures gSessionsClosed == old(gSessionsClosed) + 1
+func (c *cluster) grantNewLease() (err error)
+  trusted
+  modifies c.lease
+func (c *cluster) getLease() (id clientv3.LeaseID, err error)
+  trusted
+  pure
+func (c *cluster) keepAliveLease#cancel()
+  trusted
+func (c *cluster) keepAliveLease()
+  flag allocates
+  requires c != nil
+  modifies c.lease
+  ensures the-members-session-survives-lease-recovery: gSessionsClosed == old(gSessionsClosed) && c.session == old(c.session)
+  invariant[1] gSessionsClosed == old(gSessionsClosed) && c.session == old(c.session)
+  closure[1] ()
+    flag use=contract
+    flag allocates
+    requires c != nil
+    modifies c.lease
+    ensures a-new-lease-is-all-that-recovery-touches: gSessionsClosed == old(gSessionsClosed) && c.session == old(c.session)
+  end
 @*/
